@@ -55,10 +55,10 @@ def structures(tier, seed):
     for op, pf, pt in (("diff", "center", "left"), ("interp", "left", "center"), ("min", "center", "right"), ("max", "right", "center")):
         for order in ((0, 1, 2), (2, 0, 1)):
             out.append({"sid": f"map_overlap;op={op};{pf}->{pt};order={order}", "part": "overlap", "op": op, "pf": pf, "pt": pt, "order": list(order)})
-    cat = ["diff", "interp", "min", "max", "cumsum", "derivative", "integrate", "average", "cumint", "apply_ufunc", "vector-simple", "fc-scalar", "fc-vector", "diff-multi"]
+    cat = ["diff", "interp", "min", "max", "cumsum", "derivative", "integrate", "average", "cumint", "apply_ufunc", "vector-simple", "fc-scalar", "fc-vector", "fc-rot-scalar", "fc-rot-vector", "diff-multi"]
     for op in cat:
         for chunking in ("non-core", "core-2", "core-3"):
-            if chunking != "non-core" and op in ("fc-scalar", "fc-vector", "integrate", "average", "derivative", "apply_ufunc", "diff-multi"):
+            if chunking != "non-core" and op in ("fc-scalar", "fc-vector", "fc-rot-scalar", "fc-rot-vector", "integrate", "average", "derivative", "apply_ufunc", "diff-multi"):
                 continue
             out.append({"sid": f"lazy;op={op};chunks={chunking}", "part": "lazy", "op": op, "chunking": chunking})
     # several axes in one call: chunked along an operated axis WITHOUT inner/outer, another operated axis in one chunk WITH outer/inner:
@@ -280,6 +280,9 @@ def run_lazy(s):
         kw = dict(periodic=False, metrics={("X",): ["dx_c", "dx_l"], ("Y",): ["dy_c"]})
         if fc:
             kw["face_connections"] = {"face": {0: {"X": (None, (1, "X", False))}, 1: {"X": ((0, "X", False), None)}}}
+            if "rot" in op:
+                # an axis-swapping link: the source slice has its dimensions renamed / exchanged on the way
+                kw["face_connections"] = {"face": {0: {"X": (None, (1, "Y", False))}, 1: {"Y": ((0, "X", False), None)}}}
         g = w.grid(ds, layout, **kw)
         face = ["face"] if fc else []
 
@@ -332,9 +335,9 @@ def run_lazy(s):
         if op == "apply_ufunc":
             f = w.userfunc("F", lambda arrs: [list(arrs[0].shape[:-1]) + [dims["x_l"]]])
             return g.apply_as_grid_ufunc(f, c, axis=[("X",)], signature="(Q:center)->(Q:left)", boundary_width={"Q": (1, 0)}, boundary="extend", dask="parallelized")
-        if op in ("vector-simple", "fc-vector"):
+        if op in ("vector-simple", "fc-vector", "fc-rot-vector"):
             return g.diff({"X": u}, "X", to="center", other_component={"Y": v}, boundary="fill")
-        if op == "fc-scalar":
+        if op in ("fc-scalar", "fc-rot-scalar"):
             return g.interp(c, "X", to="left", boundary="fill")
         raise ValueError(op)
 
@@ -517,6 +520,8 @@ def replay_lazy(wit):
     if fc:
         ds = ds.assign_coords(face=np.arange(2))
         kw["face_connections"] = {"face": {0: {"X": (None, (1, "X", False))}, 1: {"X": ((0, "X", False), None)}}}
+        if "rot" in op:
+            kw["face_connections"] = {"face": {0: {"X": (None, (1, "Y", False))}, 1: {"Y": ((0, "X", False), None)}}}
         face, fshape = ("face",), (2,)
     g = xgcm.Grid(ds, coords=coords, **kw)
     c0 = xr.DataArray(rng.random((nt,) + fshape + (ny, nx)), dims=("t",) + face + ("y_c", "x_c"), name="C")
@@ -558,17 +563,28 @@ def replay_lazy(wit):
             return g.average(c, "X")
         if op == "cumint":
             return g.cumint(c, "X", to="left", boundary="fill", fill_value=0.0)
-        if op in ("vector-simple", "fc-vector"):
+        if op in ("vector-simple", "fc-vector", "fc-rot-vector"):
             return g.diff({"X": u}, "X", to="center", other_component={"Y": v}, boundary="fill")
-        if op == "fc-scalar":
+        if op in ("fc-scalar", "fc-rot-scalar"):
             return g.interp(c, "X", to="left", boundary="fill")
         return None
     if op == "apply_ufunc":
         return {"confirmed": False, "text": "no native replay for the uninterpreted user function"}
     res = {}
+    from dask.callbacks import Callback
+
+    class Count(Callback):
+        n = 0
+
+        def _start(self, dsk):
+            Count.n += 1
     for kind, args in (("in-memory", (c0, u0, v0)), ("lazy", (lazy(c0), lazy(u0), lazy(v0)))):
         try:
-            r = call(*args)
+            if kind == "lazy":
+                with Count():
+                    r = call(*args)
+            else:
+                r = call(*args)
             res[kind] = ("returned", r)
         except Exception as e:  # noqa
             res[kind] = ("raised", f"{type(e).__name__}: {e}"[:300])
@@ -577,6 +593,8 @@ def replay_lazy(wit):
     if s.get("expect"):
         conf = not (res["lazy"][0] == "raised" and res["lazy"][1].startswith(s["expect"]) and res["in-memory"][0] == "returned")
         return {"confirmed": conf, "text": "\n".join(text)}
+    if Count.n:
+        return {"confirmed": True, "text": "\n".join(text + [f"REAL CODE: {Count.n} computation(s) were triggered while the result for the lazy input was being built"])}
     if res["in-memory"][0] != res["lazy"][0]:
         return {"confirmed": True, "text": "\n".join(text + ["REAL CODE: lazy input is not accepted where the in-memory input is (or the reverse)"])}
     if res["lazy"][0] == "returned":
